@@ -28,7 +28,11 @@ res = {"property": prop, "k": k}
 
 
 def sh(cmd, cwd=None, timeout=1800):
-    p = subprocess.run(cmd, shell=True, cwd=cwd, stdout=subprocess.PIPE, stderr=subprocess.STDOUT, text=True, timeout=timeout)
+    try:
+        p = subprocess.run("exec " + cmd if not ("|" in cmd or "&&" in cmd) else cmd, shell=True, cwd=cwd, stdout=subprocess.PIPE,
+                           stderr=subprocess.STDOUT, text=True, timeout=timeout)
+    except subprocess.TimeoutExpired as e:
+        return 124, "TIMEOUT after %ss: %s" % (timeout, (e.stdout or "")[-300:] if isinstance(e.stdout, str) else "")
     return p.returncode, p.stdout
 
 
@@ -47,7 +51,7 @@ try:
     if rc == 0:
         rc, out = sh("/venv/bin/python -m pytest -q -p no:cacheprovider 2>&1 | tail -1", wt)
         res["mut_tests"] = out.strip()
-        rc, out = sh("/venv/bin/python demo.py", wt, 900)
+        rc, out = sh("/venv/bin/python demo.py", wt, 420)
         res["mut_demo_rc"] = rc
         res["mut_demo_tail"] = out[-400:]
 except Exception as e:
